@@ -21,9 +21,11 @@ VARIANT = "asan"
 TIMEOUT = 900
 
 RULE = ("two real threads on the real ThreadLink under a forced schedule. Rings ThreadLink(MM,n) with MM in "
-        "{16,17,18,20,24,32}, n in 2..8 (N = MM*n <= 160, N mod 4 in {0,1,2,3} so messages wrap at every offset). "
-        "Writer scripts: raw_write / writeArray / write of OSC messages of every size 8..MM+12 (step 4) incl. longer "
-        "than MaxMsg; reader scripts: hasNext, hasNextLookahead, guarded read, guarded read_lookahead. Streams: seq "
+        "{16,17,18,20,24,30,32,34,62}, n in 2..8 (N = MM*n <= 186, N mod 4 in {0,1,2,3} so messages wrap at every offset). "
+        "Writer scripts: raw_write / writeArray / write of OSC messages (integer, string and BLOB arguments, blob contents any bytes) of every size 8..MM+12 (step 4) incl. longer "
+        "than MaxMsg; stream wrapfield: on rings whose size is no multiple of 4 (30x3, 34x3, 62x3, 45x3, 17x3 ...) filler messages are written and read until the next "
+        "message - a blob message or a bundle - starts where the ring's end falls 1..3 bytes into a blob's size field / its tag string / its address / a bundle "
+        "element's size, sequentially and under hook-level schedules; reader scripts: hasNext, hasNextLookahead, guarded read, guarded read_lookahead. Streams: seq "
         "(operations in a random total order, sizes aimed at free space -4/0/+4), ilv (random hook-level schedules "
         "with bursts), pre (sequential prefix that fills/wraps the ring, then a hook-level schedule), dfs (every "
         "schedule prefix of a fixed length for short histories, then drain), soak (free-running). Non-trivial = the "
@@ -51,16 +53,18 @@ def osc(path, tags, args):
             out += int(a & 0xffffffff).to_bytes(4, "big")
         elif t == "s":
             out += pad4(a)
+        elif t == "b":
+            out += len(a).to_bytes(4, "big") + a + b"\0" * (-len(a) % 4)
     return out
 
 def make_msg(rng, size, ident):
     """an OSC message of exactly `size` bytes (size % 4 == 0, size >= 8)"""
     assert size % 4 == 0 and size >= 8
-    shapes = ["", "i", "s", "ii", "si", "is"]
+    shapes = ["", "i", "s", "ii", "si", "is", "b", "ib", "sb", "bi", "bb"]
     rng.shuffle(shapes)
     for tags in shapes:
         fixed = 4 * ((len(tags) + 1) // 4 + 1) + 4 * tags.count("i")
-        nstr = tags.count("s")
+        nstr = tags.count("s") + tags.count("b")      # fields of variable length (a blob: size word + padded data)
         rest = size - fixed            # address field + string fields
         if rest < 4 * (1 + nstr):
             continue
@@ -83,12 +87,19 @@ def make_msg(rng, size, ident):
         for t in tags:
             if t == "i":
                 args.append(rng.choice([0, 1, ident, 0x7fffffff, 0x2f616263, rng.getrandbits(31)]))
+            elif t == "b":
+                args.append(blob_data(rng, 4 * cuts[k] - 4)); k += 1
             else:
                 args.append(text(cuts[k], False)); k += 1
         m = osc(addr, tags, args)
         if len(m) == size:
             return m, tags
     return osc(b"/" + b"x" * (size - 8 - 1 if size > 8 else 0), "", [])[:size], ""
+
+def blob_data(rng, room):
+    """blob contents whose padded length is `room` (a multiple of 4): any bytes, also 0, ',' '#' '/' and 0xff"""
+    ln = room if room == 0 else room - rng.choice([0, 0, 1, 2, 3])
+    return bytes(rng.choice(b"\0\0\x01,#/bz\x7f\x80\xff") for _ in range(ln))
 
 def bundle(msgs):
     out = b"#bundle\0" + (1).to_bytes(8, "big")
@@ -97,7 +108,91 @@ def bundle(msgs):
     return out
 
 RINGS = [(16, 2), (16, 3), (16, 4), (17, 3), (17, 5), (18, 3), (18, 4), (20, 2), (20, 5),
-         (24, 3), (24, 4), (32, 2), (32, 3), (32, 4), (16, 8), (20, 8)]
+         (24, 3), (24, 4), (32, 2), (32, 3), (32, 4), (16, 8), (20, 8), (30, 3), (34, 3), (62, 2)]
+# rings whose size is no multiple of 4: only there a 4-byte field of a message can straddle the ring's end
+WRAP_RINGS = [(30, 3), (34, 3), (17, 3), (17, 5), (18, 3), (22, 5), (26, 3), (33, 2), (35, 3), (37, 3), (38, 3), (41, 3), (45, 3), (62, 3)]
+assert all((mm * n) % 4 for mm, n in WRAP_RINGS)
+
+def field_msg(rng, MM, ident):
+    """a message of at most MM bytes with a blob argument (or a one/two element bundle) and the offsets of the
+    fields whose bytes the ring reader looks at: -> (bytes, {kind: [offsets]}, is_bundle)"""
+    lim = (MM // 4) * 4
+    def plain(room, tagsets):
+        for _ in range(40):
+            tags = rng.choice(tagsets)
+            addr = b"/" + bytes([97 + ident % 26]) + bytes(rng.choice(b"abcxyz019") for _ in range(rng.randint(0, 5)))
+            args = []
+            for t in tags:
+                if t == "i":
+                    args.append(rng.choice([0, 1, 0x7fffffff, 0x2f616263, rng.getrandbits(31)]))
+                elif t == "s":
+                    args.append(bytes(rng.choice(b"abcxyz") for _ in range(rng.randint(0, 6))))
+                else:
+                    args.append(blob_data(rng, 4 * rng.randint(0, max(0, (room - 16) // 4))))
+            m = osc(addr, tags, args)
+            if len(m) <= room:
+                offs = {"address": [0], "tag-string": [len(pad4(addr))], "blob-size": []}
+                pos = len(pad4(addr)) + len(pad4(b"," + tags.encode()))
+                for t, a in zip(tags, args):
+                    if t == "b":
+                        offs["blob-size"].append(pos)
+                    pos += 4 if t == "i" else len(pad4(a)) if t == "s" else 4 + len(a) + (-len(a) % 4)
+                return m, offs
+        m = osc(b"/" + bytes([97 + ident % 26]), "b", [b""])
+        return m, {"address": [0], "tag-string": [4], "blob-size": [8]}
+    if lim >= 36 and rng.random() < 0.3:
+        # a bundle (it stays the last message of the history: see finding bundle-not-last)
+        e1, _ = plain(min(lim - 20, 24) if lim >= 48 and rng.random() < 0.5 else lim - 20, ["", "i", "b", "s"])
+        elems, offs, pos = [e1], {"bundle-element-size": [16]}, 16 + 4 + len(e1)
+        if lim - pos - 4 >= 8:
+            e2, _ = plain(lim - pos - 4, ["", "i", "b"])
+            elems.append(e2); offs["bundle-element-size"].append(pos)
+        return bundle(elems), offs, True
+    m, offs = plain(lim, ["b", "b", "ib", "sb", "bi", "bb", "bs", "sbi"])
+    return m, offs, False
+
+def gen_wrapfield(rng, dist, hook_level):
+    """a history that moves both indices round a ring whose size is no multiple of 4 until the next message
+    starts where the ring's end falls INSIDE one of its fields (1..3 bytes of the field in front of the end):
+    a blob's 32-bit size, the type tag string, the address, a bundle element's size.  Every filler message is
+    read before the next is written; the aimed message is followed by one more message (unless it is a bundle)."""
+    MM, n = rng.choice(WRAP_RINGS); N = MM * n
+    lim = (MM // 4) * 4
+    ws, rs, P = [], [], 0
+    for i in range(rng.randint(0, 3)):                     # somewhere on the first laps
+        m, _ = make_msg(rng, 4 * rng.randint(2, lim // 4), i)
+        ws.append(wop_str(rng.choice("rra"), m)); rs.append("t0"); P += len(m)
+    B, offs, isb = field_msg(rng, MM, len(ws))
+    kind = rng.choice([k for k in offs if offs[k]])
+    fo = rng.choice(offs[kind])
+    cands = [D for D in range(0, 4 * N + 8, 4) if D != 4 and (P + D + fo) % N in (N - 3, N - 2, N - 1)]
+    if not cands:
+        return None
+    D = rng.choice(cands[:4])
+    split = (P + D + fo) % N
+    while D > 0:
+        size = min(lim, D)
+        if D - size == 4:
+            size -= 4
+        m, _ = make_msg(rng, size, len(ws))
+        ws.append(wop_str(rng.choice("rra"), m)); rs.append("t0"); D -= size
+    k = len(ws)
+    ws.append(wop_str(rng.choice("ra") if not isb else "r", B))
+    rs += rng.choice([["t0"], ["t1", "t0"], ["h0", "t0"], ["h1", "t1", "t0"]])
+    if not isb and rng.random() < 0.7:
+        m, _ = make_msg(rng, 4 * rng.randint(2, min(lim, N - 1 - len(B)) // 4), k + 1)
+        ws.append(wop_str(rng.choice("rra"), m)); rs += ["t0"]
+    rs += ["h0", "h1"]
+    sched = "wr" * k
+    if hook_level:
+        sched += ilv_sched(rng, rng.randint(4, 90))
+    else:
+        sched += "w" * (len(ws) - k) + "r" * (len(rs) - k)
+    kk = "wrapfield:%s-straddles-the-ring-end" % kind
+    dist[kk] = dist.get(kk, 0) + 1
+    kk = "wrapfield:%d-bytes-of-the-field-in-front-of-the-end" % (N - split)
+    dist[kk] = dist.get(kk, 0) + 1
+    return line(N, MM, ws, rs, sched, "wrapfield")
 
 def wop_str(kind, m):
     return kind + m.hex()
@@ -196,6 +291,12 @@ def gen(rng, tier, dist):
         pre = "w" * k + "r" * rng.randint(0, min(nr, k))
         out.append(line(N, MM, ws, rs, pre + ilv_sched(rng, rng.randint(4, 120)), "pre"))
         count("pre")
+    # (b+) blob messages / bundles placed so that the ring's end falls inside a size field, the tag string,
+    #      the address (rings whose size is no multiple of 4)
+    for i in range(700 if quick else 40000):
+        c = gen_wrapfield(rng, dist, i % 3 == 2)
+        if c:
+            out.append(c); count("wrapfield")
     # (b'') every schedule prefix of a fixed length for short histories
     hists = 1 if quick else 10
     depth = 9 if quick else 14
